@@ -96,10 +96,18 @@ int backup_copy_file(const char *filename, const vector<UINT8> &data)
       size_t retval   = fwrite(data.data(), data.size(), 1, thefile);
       int    my_errno = errno;
 
-      fclose(thefile);
+      // the data may still be in the stdio buffer: if the close fails,
+      // the backup is incomplete and the source must not be replaced
+      const bool closed_ok = (fclose(thefile) == 0);
 
-      if (  retval == 1
-         || data.empty())
+      if (!closed_ok)
+      {
+         my_errno = errno;
+      }
+
+      if (  closed_ok
+         && (  retval == 1
+            || data.empty()))
       {
          return(EX_OK);
       }
